@@ -67,7 +67,11 @@ def check_case(case):
     for k in ("test_period", "min_obs", "min_period"):
         if case.get(k) is not None:
             kw[k] = case[k]
-    out = alpha.call(qartod.attenuated_signal_test, alpha.nd(x), alpha.dt64(secs), case["suspect"], case["fail"],
+    data = alpha.nd(x)
+    if case.get("data") == "ma":  # masked array with a finite value hidden under the mask
+        miss = [v in (alpha.NAN, None) for v in x]
+        data = np.ma.MaskedArray(np.array([50.0 if m else float(v) for v, m in zip(x, miss)]), mask=miss)
+    out = alpha.call(qartod.attenuated_signal_test, data, alpha.dt64(secs), case["suspect"], case["fail"],
                      check_type=case["check_type"], **kw)
     acceptable, skipped = R.attenuated(alpha.ref(x), secs, case["suspect"], case["fail"], case.get("test_period"),
                                        case.get("min_obs"), case.get("min_period"), case["check_type"])
@@ -114,6 +118,13 @@ def run_task(task, acc):
         run_cases(acc, gen(), check_case)
     elif kind == "small":
         def gen():
+            for ct in ("std", "range"):
+                for x in alpha.all_seqs(SIGMA, 2, 4):
+                    if alpha.NAN not in x:
+                        continue
+                    for tp in (None, 120, 600):
+                        for s, f in THR3:
+                            yield dict(x=list(x), gaps=list(GAPSETS[0]), check_type=ct, suspect=s, fail=f, test_period=tp, data="ma")
             for ct in ("bogus", "STD", ""):
                 for x in alpha.all_seqs(SIGMA, 1, 2):
                     for tp in (None, 120):
